@@ -2,6 +2,7 @@ import GroupbyVerif.Model.Proto
 import GroupbyVerif.Model.Align
 import GroupbyVerif.Model.Facade
 import GroupbyVerif.Model.Margins
+import GroupbyVerif.Model.Composite
 
 /-!
 # gbdriver — executable model behind the line protocol
@@ -235,6 +236,42 @@ def opMargins (kv : KV) : Option String := do
     pure s!"model={model} spec={spec}"
   | _ => none
 
+/-- `composite op=<var|ratio|subset_ratio|density> kind= codes= vals= [vals2=] [mask=] [subset= global=] threads= ng= [ddof=]`:
+the composite statistics as combinations of kernel calls (reducers regenerated from the source) -/
+def opComposite (kv : KV) : Option String := do
+  let op ← get kv "op"
+  let k ← parseKind (← get kv "kind")
+  let codes ← parseIntList (← get kv "codes")
+  let vals ← parseValList (← get kv "vals")
+  let threads ← parseNat (← get kv "threads")
+  let ng ← parseNat (← get kv "ng")
+  if codes.length ≠ vals.length then none
+  let rows := codes.zip vals
+  let sh : Option (Int → Option Rat) → String := fun r => match r with
+    | none => "error"
+    | some f => if ng == 0 then "-" else ",".intercalate ((List.range ng).map fun g => match f (Int.ofNat g) with
+        | none => "_"
+        | some q => showRat q)
+  match op with
+  | "var" =>
+    let mask ← parseMask (← get kv "mask")
+    let ddof ← parseNat (← get kv "ddof")
+    pure s!"model={sh (groupVar generatedReducers k rows mask threads none ddof)}"
+  | "ratio" =>
+    let mask ← parseMask (← get kv "mask")
+    let vals2 ← parseValList (← get kv "vals2")
+    if vals2.length ≠ codes.length then none
+    pure s!"model={sh (groupRatio generatedReducers k codes vals vals2 mask threads)}"
+  | "subset_ratio" =>
+    let subset ← parseBoolList (← get kv "subset")
+    let g ← get kv "global"
+    let gm ← if g == "-" then pure none else (parseBoolList g).map some
+    pure s!"model={sh (groupSubsetRatio generatedReducers k rows subset gm threads)}"
+  | "density" =>
+    let mask ← parseMask (← get kv "mask")
+    pure s!"model={sh (groupDensity generatedReducers k rows mask ng threads)}"
+  | _ => none
+
 def opScalar (kv : KV) : Option String := do
   let fn ← get kv "fn"
   let k ← parseKind (← get kv "kind")
@@ -265,6 +302,7 @@ def step (line : String) : String :=
       | "firstlast" => opFirstLast kv
       | "mono" => opMono kv
       | "margins" => opMargins kv
+      | "composite" => opComposite kv
       | _ => none
     r.getD "bad-op"
 
